@@ -147,9 +147,12 @@ class World:
         self.faults = collections.Counter()
         self.probes = collections.Counter()
         self.h = hashlib.blake2b(digest_size=8)
+        self.frozen = False
 
     # -- logging (never draws, never reads a clock other than loop.time) ----
     def ev(self, kind, a='', b=''):
+        if self.frozen:
+            return      # teardown (cancelling what is left) is not part of the run
         self.h.update(f'{kind}|{a}|{b};'.encode())
         self.nevents += 1
         if self.trace is not None:
@@ -384,6 +387,7 @@ class World:
                 [repr(e) for _, e in loop.task_failures
                  if not isinstance(e, InjectedDisconnectError)][:3] +
                 [repr(ctx.get('exception')) for ctx in loop.callback_failures][:3])
+            self.frozen = True
             loop.shutdown()
         return self.result()
 
